@@ -9,10 +9,13 @@ PKG = "vcr/revocation"
 HARNESS = ["vcr/revocation/zz_verif_c11_test.go"]
 PKG_V = "vcr/verifier"
 HARNESS_V = ["vcr/verifier/zz_verif_c11v_test.go"]
-HARNESSES = [(PKG, HARNESS, "c11"), (PKG_V, HARNESS_V, "c11v")]
+PKG_A = "vcr"
+HARNESS_A = ["vcr/zz_verif_c11a_test.go"]
+HARNESSES = [(PKG, HARNESS, "c11"), (PKG_V, HARNESS_V, "c11v"), (PKG_A, HARNESS_A, "c11a")]
 
 REQUIRED = ["entries_injective", "einv_fresh", "bit_set_get", "bit_total", "served_list_signed_and_fresh", "list_signed_in_same_transaction",
             "set_monotone", "served_bit_never_cleared", "revoke_idempotent", "revoked_forever_network", "revocation_before_credential",
+            "revocation_event_stored_or_retried", "redelivered_revocation_effective", "fact_ambassador_transient_errors",
             "issuer_only", "stored_revocations_accepted", "network_revocation_is_by_issuer", "forged_revocations_rejected",
             "foreign_prefix_witness", "issuer_only_stmt_false", "issuer_only_partial", "nuts_validators_enforce_prefix",
             "credential_never_panics", "revoked_forever_local", "revoke_effective", "revoked_forever_remote", "refresh_after_revocation_pins",
@@ -252,6 +255,93 @@ def voracle(ops, impl):
     return stats, bad
 
 
+def aoracle(ops, impl):
+    """the real ambassador: a delivered, acceptable revocation is stored or the event is retried, never dropped for a transient error"""
+    stats = Counter()
+    bad = []
+    stored = set()
+
+    def report(sig, what, i):
+        if sig not in [b[0] for b in bad]:
+            bad.append((sig, what, i))
+
+    for i, line in enumerate(impl):
+        if i >= len(ops) or not ops[i]:
+            continue
+        op = json.loads(ops[i])
+        kind = op.get("op")
+        if "panic:" in line:
+            report("C11:panic", f"{line[:200]}", i)
+        if kind == "areset":
+            stored = set()
+        elif kind == "adeliver":
+            honest = op["subject"].split("#")[0] == op["issuer"]
+            fault = op.get("fault", "")
+            stats[f"deliver:{'honest' if honest else 'other-party'}:{fault or 'healthy'}:wraps={op.get('wraps', 0)}"] += 1
+            if honest and fault in ("deadline", "canceled") and line != "adeliver retry":
+                report("C11:network-revocation-dropped-for-transient-storage-error",
+                       f"store failed with context {fault} wrapped {op.get('wraps', 0)}+1 times; the event was answered '{line}' instead of being retried", i)
+            if honest and not fault:
+                if line != "adeliver done":
+                    report("C11:acceptable-network-revocation-not-stored", line, i)
+                stored.add(op["subject"])
+            if not honest and line == "adeliver done":
+                report("C11:forged-revocation-accepted:names-another-issuer-than-id-prefix", ops[i][:300], i)
+        elif kind == "averify":
+            stats["verify"] += 1
+            if (line == "averify revoked") != (op["id"] in stored):
+                report("C11:revocation-not-effective-or-not-permanent" if op["id"] in stored else "C11:revoked-without-revocation", f"{op['id']} {line}", i)
+    return stats, bad
+
+
+def run_side_harness(ctx, pkg, files, name, test, reset_op, oracle_fn, scen_quick, scen_thorough):
+    """a further harness of the same shape: build, run, model, compare, oracle"""
+    binary = ctx.go_test_binary(pkg, files, name)
+    if binary is None:
+        ctx.oblige(f"harness-builds({name})", False, ctx.harness_error[-1500:])
+        return None
+    ctx.oblige(f"harness-builds({name})", True)
+    env = {"TMPDIR": ctx.scratch}
+    if ctx.replay:
+        env["VERIF_REPLAY"] = os.path.abspath(ctx.replay)
+    else:
+        env["VERIF_CORPUS"] = os.path.join(os.path.dirname(os.path.dirname(os.path.abspath(__file__))), "harness", "corpus", "C11")
+        env["VERIF_SCENARIOS"] = scen_thorough if ctx.thorough else scen_quick
+    rc, log, out = ctx.run_harness(binary, test, env, outdir=os.path.join(ctx.scratch, "out-" + name), timeout=3000)
+    if rc != 0:
+        ctx.oblige(f"harness-runs({name})", False, log[-1500:])
+        return None
+    ctx.oblige(f"harness-runs({name})", True)
+    ops_p, impl_p, model_p = (os.path.join(out, x) for x in ("ops.jsonl", "impl.out", "model.out"))
+    ok, err = ctx.model("C11", ops_p, model_p)
+    ctx.oblige(f"model-driver-runs({name})", ok, err[-500:])
+    impl, model, bad = ctx.compare(impl_p, model_p)
+    ops = ctx.read_lines(ops_p)
+    stats, obad = oracle_fn(ops, impl)
+
+    def scen(i):
+        k = i
+        while k > 0 and json.loads(ops[k]).get("op") != reset_op:
+            k -= 1
+        return "\n".join(ops[k:i + 1]) + "\n"
+    unknown = 0
+    for sig, what, i in obad:
+        if ctx.violation(sig, what + f" (op line {i})", name + "-" + re.sub(r"[^a-z0-9-]+", "-", sig.split(":", 1)[1])[:60] + ".jsonl", scen(i)):
+            unknown += 1
+    ctx.oblige(f"oracle({name}):property-holds-on-implementation-outputs", unknown == 0, "; ".join(b[0] for b in obad))
+    if bad:
+        i = bad[0]
+        detail = f"first differing line {i}\nop   : {ops[i][:600] if i < len(ops) else None}\nimpl : {impl[i][:300] if i < len(impl) else None}\nmodel: {model[i][:300] if i < len(model) else None}"
+        ctx.oblige(f"correspondence({name}):model=impl", False, f"{len(bad)} of {len(impl)} lines differ; " + detail[:900])
+        if unknown == 0:
+            with open(os.path.join(ctx.replay_dir(), name + "-correspondence.jsonl"), "w") as f:
+                f.write(scen(i))
+            ctx.unproved([f"correspondence C11 {name} harness (model.out != impl.out)"], detail + f"\nreplay ops: {ctx.replay_dir()}/{name}-correspondence.jsonl")
+    else:
+        ctx.oblige(f"correspondence({name}):model=impl", True, f"{len(impl)} lines equal")
+    return {"lines": len(impl), "bad": len(bad), "stats": dict(stats), "outcomes": dict(Counter(impl).most_common(20))}
+
+
 def run_verifier_harness(ctx):
     """second harness: real vcr/verifier with really signed and forged revocation documents"""
     binary = ctx.go_test_binary(PKG_V, HARNESS_V, "c11v")
@@ -337,13 +427,18 @@ def run(ctx):
         with open(ctx.replay) as f:
             first = [l for l in f.read().split("\n") if l.strip()][:1]
         replay_is_v = bool(first) and json.loads(first[0]).get("op", "").startswith("v")
+        replay_is_a = bool(first) and json.loads(first[0]).get("op", "").startswith("a")
+    else:
+        replay_is_a = False
 
-    vres = None
+    vres = ares = None
     if not ctx.replay or replay_is_v:
         vres = run_verifier_harness(ctx)
-    if ctx.replay and replay_is_v:
-        ctx.cov["evaluations"] = (vres or {}).get("lines", 0)
-        ctx.cov["input_distribution"] = {"verifier_harness": vres}
+    if not ctx.replay or replay_is_a:
+        ares = run_side_harness(ctx, PKG_A, HARNESS_A, "c11a", "TestVerifC11a", "areset", aoracle, 60, 600)
+    if ctx.replay and (replay_is_v or replay_is_a):
+        ctx.cov["evaluations"] = (vres or ares or {}).get("lines", 0)
+        ctx.cov["input_distribution"] = {"verifier_harness": vres, "ambassador_harness": ares}
         return
 
     binary = ctx.go_test_binary(PKG, HARNESS, "c11")
@@ -388,7 +483,7 @@ def run(ctx):
 
     kinds = Counter(json.loads(o).get("op") for o in ops if o)
     outcomes = Counter(re.sub(r"n\d/\S+|\[[^\]]*\]|\d+", "_", l)[:60] for l in impl)
-    vlines = (vres or {}).get("lines", 0)
+    vlines = (vres or {}).get("lines", 0) + (ares or {}).get("lines", 0)
     ctx.cov["evaluations"] = len(impl) + vlines
     ctx.cov["distinct_nontrivial"] = len(set(l for l in impl if l not in ("reset", "tick", "host", "bump 0", "record none")
                                              and "err:notfound" not in l)) + len((vres or {}).get("outcomes", {}))
@@ -400,8 +495,9 @@ def run(ctx):
                        "bitstring differential (all indexes of small strings, boundary and negative indexes of the 16 kB string). (2) real vcr/verifier "
                        "with a real leia store: RegisterRevocation of JsonWebSignature2020-signed honest and forged revocation documents (other issuer, "
                        "other party's key, other signer, unknown key, changed after signing, missing fields), IsRevoked, Verify of credentials with "
-                       "own/foreign id prefix, Nuts/other type, status entries on hosted lists. distinct_nontrivial = distinct output lines that are not "
+                       "own/foreign id prefix, Nuts/other type, status entries on hosted lists. (3) real ambassador.handleNetworkRevocations on the real verifier + "
+                       "leia store with injected StoreRevocation faults (context deadline/cancel wrapped 0-3 times, other error), re-delivery, Verify. distinct_nontrivial = distinct output lines that are not "
                        "reset/tick/not-found")
     ctx.cov["input_distribution"] = {"ops": dict(kinds), "features": dict(stats), "outcome_shapes": dict(outcomes.most_common(40)),
-                                     "verifier_harness": vres}
+                                     "verifier_harness": vres, "ambassador_harness": ares}
     ctx.cov["samples"] = [ops[len(ops) // 2][:300] if ops else "", impl[len(impl) // 2][:300] if impl else ""]
